@@ -6,7 +6,7 @@ from hypothesis import strategies as st
 
 from vlib.runner import Clause
 from vlib.tol import close, describe
-from vlib.digest import digest
+from vlib.digest import digest, parameter_mutation
 
 from menpo.image import Image, MaskedImage, BooleanImage
 from menpo.image.base import ImageBoundaryError
@@ -39,9 +39,13 @@ ASSUMPTIONS = [
     "sample_offsets are passed as ndarray (documented type); lists are not exercised",
 ]
 
-INT_DTYPES = ("uint8", "uint16", "int32")
+INT_DTYPES = ("uint8", "uint16", "int32", "int8", "int16", "uint32")
 FLOAT_DTYPES = ("float32", "float64")
 ALL_DTYPES = INT_DTYPES + FLOAT_DTYPES + ("bool",)
+# crop must be bit-exact for every dtype; 64-bit integers above 2**53 do not survive a float64 detour.  (float16 is
+# refused by the scipy sampler everything goes through - RuntimeError "data type not supported" - and is not generated.)
+WIDE_INT_DTYPES = ("int64", "uint64")
+CROP_DTYPES = ALL_DTYPES + WIDE_INT_DTYPES
 LM_NAMES = ["g", "PTS", "left eye", "ü"]
 
 
@@ -104,12 +108,15 @@ def build_pixels(c):
     if c["fill"] == "coords":
         a = np.arange(n, dtype=np.int64).reshape(shape)
         if dt.kind in "iu":
-            px = ((a * 7 + 3) % (int(np.iinfo(dt).max) + 1)).astype(dt)
+            px = (a * 7 + 3).astype(dt) if dt.itemsize == 8 else ((a * 7 + 3) % (int(np.iinfo(dt).max) + 1)).astype(dt)
         else:
             px = (a + 0.25).astype(dt)
         return px
     if dt.kind in "iu":
         info = np.iinfo(dt)
+        if dt.itemsize == 8:
+            # full range: most values are above 2**53 in magnitude (not representable in float64)
+            return rs.randint(int(info.min), int(info.max), size=shape, dtype=dt)
         return rs.randint(int(info.min), int(info.max) + 1, size=shape, dtype=np.int64).astype(dt)
     px = (rs.standard_normal(shape) * 100.0).astype(dt)
     if c["fill"] == "special":
@@ -241,7 +248,7 @@ def s_crop(draw, vias):
     via = draw(st.sampled_from(vias))
     classes = ("MaskedImage",) if via == "true_mask" else ("Image", "MaskedImage", "BooleanImage")
     ndims = draw(st.sampled_from([(2,), (2,), (2,), (3,), (3,), (4,), (2, 3, 4)]))
-    img = draw(s_image(ndims=ndims, classes=classes, special=True))
+    img = draw(s_image(ndims=ndims, classes=classes, special=True, dtypes=CROP_DTYPES))
     case = {"img": img, "via": via}
     case["constrain"] = draw(st.sampled_from([True, True, False, False, None]))
     case["rt"] = draw(st.booleans())
@@ -364,7 +371,7 @@ def c_crop(case, ctx):
         outcome, err = "ve", e
     req = "shape=%r min=%r max=%r constrain=%r via=%s" % (shape, rmin, rmax, constrain, via)
 
-    ctx.expect(digest(im) == before, "crop.source_mutated", req)
+    ctx.expect(parameter_mutation(before, digest(im)) is None, "crop.source_mutated", req)
 
     if outcome == "ve" and nd > 3 and "2D or 3D" in str(err) and not degenerate:
         # the crop itself is never attempted: Translation refuses n_dims > 3
@@ -421,6 +428,9 @@ def c_crop(case, ctx):
                 nan_only = bool(np.all(np.isnan(want) | (got == want))) and bool(np.all(got[np.isnan(want)] == 0))
                 ctx.fail("crop.nonfinite_pixels_altered" if not nan_only else "crop.nan_pixels_zeroed",
                          lambda: "%s dtype=%s: %s" % (req, c["dtype"], short(got, want)))
+            elif want.dtype.kind in "iu" and want.dtype.itemsize == 8 and bool(np.all((got == want) | (np.abs(want.astype(object)) >= 2 ** 52))):
+                # exactly this: only pixels of magnitude >= 2**52 differ (the sampler computes floor(float64(x) + 0.5))
+                ctx.fail("crop.int64_pixels_through_float", lambda: "%s dtype=%s: %s" % (req, c["dtype"], short(got, want)))
             else:
                 ctx.fail("crop.block" + suffix, lambda: "%s cls=%s dtype=%s: %s" % (req, c["cls"], c["dtype"], short(got, want)))
     if mask is not None and isinstance(out, MaskedImage):
@@ -525,7 +535,8 @@ def s_cval(dtype):
     if dtype == "bool":
         return st.sampled_from([0.0, 0.0, 1.0])
     if dtype in INT_DTYPES:
-        return st.sampled_from([0.0, 0.0, 1.0, 7.0, 100.0, 255.0])
+        top = float(min(int(np.iinfo(dtype).max), 255))  # representable in the dtype
+        return st.sampled_from([0.0, 0.0, 1.0, 7.0, 100.0, top])
     return st.sampled_from([0.0, 0.0, 1.0, -1.0, 2.5, -37.125, 1000.0])
 
 
@@ -689,7 +700,7 @@ def c_patches_ref(case, ctx):
         res = extract_patches_by_sampling(im.pixels, pc.points, ps, offsets=oarg, order=order, mode=mode, cval=cval)
     else:
         res = extract_patches_with_slice(im.pixels, pc.points, ps, offsets=oarg, cval=cval)
-    ctx.expect(digest(im) == before, "patches.source_mutated", info)
+    ctx.expect(parameter_mutation(before, digest(im)) is None, "patches.source_mutated", info)
     sig = "patches.%s" % path
     if via in ("method", "landmarks") and not case["single"]:
         res = _to_array(res, n, no, ctx, sig)
@@ -858,7 +869,7 @@ def c_writeback(case, ctx):
     want = place(tops)
     Gc = G.copy()
     wrote = put(im, G)
-    ctx.expect(digest(im) == before, "writeback.receiver_mutated", info)
+    ctx.expect(parameter_mutation(before, digest(im)) is None, "writeback.receiver_mutated", info)
     ctx.expect(np.array_equal(G, Gc), "writeback.patches_argument_mutated", info)
     ctx.expect(type(wrote) is type(im) and wrote is not im, "writeback.result_class", type(wrote).__name__)
     ctx.expect(not np.shares_memory(wrote.pixels, im.pixels), "writeback.result_aliases_receiver", info)
@@ -893,7 +904,7 @@ def c_writeback(case, ctx):
         return
     Pc = P.copy()
     back = put(im, P)
-    ctx.expect(digest(im) == before, "writeback.receiver_mutated", info)
+    ctx.expect(parameter_mutation(before, digest(im)) is None, "writeback.receiver_mutated", info)
     ctx.expect(np.array_equal(P, Pc), "writeback.patches_argument_mutated", info)
     ctx.expect(eq_exact(back.pixels, px), "writeback.restore" + sfx, lambda: "%s: %s" % (info, short(back.pixels, px)))
     if mask is not None:
@@ -914,7 +925,7 @@ def c_writeback(case, ctx):
     L2 = extract(im, as_single=False)
     back_l = put(im, L2)
     ctx.expect(eq_exact(back_l.pixels, px), "writeback.restore_list_form" + sfx, lambda: "%s: %s" % (info, short(back_l.pixels, px)))
-    ctx.expect(digest(im) == before, "writeback.receiver_mutated", info)
+    ctx.expect(parameter_mutation(before, digest(im)) is None, "writeback.receiver_mutated", info)
 
 
 CLAUSES = [
